@@ -1049,7 +1049,8 @@ class HtmlBlock(BlockToken):
     which holds the raw HTML content.
     """
     _end_cond = None
-    multiblock = re.compile(r'<(pre|script|style|textarea)[ >\n]')
+    multiblock = re.compile(r'<(pre|script|style|textarea)[ \t>\n]', re.IGNORECASE)
+    multiblock_end_conds = ('</pre>', '</script>', '</style>', '</textarea>')
     predefined = re.compile(r'<\/?(.+?)(?:\/?>|[ \n])')
     custom_tag = re.compile(r'(?:' + '|'.join((span_token._open_tag,
                                 span_token._closing_tag)) + r')\s*$')
@@ -1070,7 +1071,8 @@ class HtmlBlock(BlockToken):
         # rule 1: HTML tags designed to contain literal content, allow newlines in block
         match_obj = cls.multiblock.match(stripped)
         if match_obj is not None:
-            cls._end_cond = '</{}>'.format(match_obj.group(1).casefold())
+            # (the end tag need not match the start tag)
+            cls._end_cond = cls.multiblock_end_conds
             return 1
         # rule 2: html comment tags, allow newlines in block
         if stripped.startswith('<!--'):
@@ -1112,7 +1114,8 @@ class HtmlBlock(BlockToken):
         for line in lines:
             line_buffer.append(line)
             if cls._end_cond is not None:
-                if cls._end_cond in line.casefold():
+                end_conds = cls._end_cond if isinstance(cls._end_cond, tuple) else (cls._end_cond,)
+                if any(end_cond in line.casefold() for end_cond in end_conds):
                     break
             elif line.strip() == '':
                 line_buffer.pop()
